@@ -216,7 +216,14 @@ def flush_protocol(ctx, prog, rule):
     ctx.ob(rule, "offset-unchanged/%s" % short(f.path), not offs, "flush does not modify self.offset (%d assignments)" % len(offs))
 
 
-def formulas(ctx, prog, rule):
+def formulas(ctx, prog, rule, side="both"):
+    if side in ("both", "writer"):
+        _formulas_writer(ctx, prog, rule)
+    if side in ("both", "reader"):
+        _formulas_reader(ctx, prog, rule)
+
+
+def _formulas_writer(ctx, prog, rule):
     # writer: physical_position = stream_position + offset
     f = prog.fn(PW + "physical_position")
     ctx.fn_seen(f)
@@ -232,6 +239,37 @@ def formulas(ctx, prog, rule):
                 parts = [strip_casts(v[2]), strip_casts(v[3])]
                 ok = any(x[0] == "call" and x[1].endswith("Seek::stream_position") for x in parts) and any(is_self_field(x, "offset") for x in parts)
     ctx.ob(rule, "formula/PagedWriter::physical_position", ok, "physical_position = %s (must be stream_position() + offset)" % desc)
+    # align
+    a = prog.fn(PW + "align")
+    ctx.fn_seen(a)
+    Ra = Resolver(a)
+    okw = False
+    desc = ""
+    for bi, t in a.calls(lambda c, t: c.endswith("Write::write_all")):
+        data = slice_of(Ra.operand(t["args"][1]))
+        if data is None:
+            continue
+        base = strip(data[0])
+        lo = strip_casts(data[2]) if data[2] else None
+        desc = "%s[%s..]" % (tree_str(base), tree_str(lo) if lo else "")
+        zeros = base[0] == "agg" and base[1][0] == "array" and len(base[2]) == 4 and all(const_val(x) == 0 for x in base[2]) or (base[0] == "repeat" and const_val(base[1]) == 0 and base[2].strip().startswith("4"))
+        rem = lo is not None and lo[0] == "binop" and lo[1] == "Rem" and is_self_field(lo[2], "offset") and const_val(lo[3]) == 4
+        # guarded by rem != 0
+        guard = False
+        for b2 in a.cfg():
+            tt = a.blocks[b2]["term"]
+            if tt["k"] == "switch":
+                dl = op_place(tt["discr"])
+                d = strip(Ra.place(dl)) if dl else None
+                if d and d[0] == "binop" and d[1] in ("Ne", "Eq", "Gt") and const_val(d[3]) == 0 and strip_casts(d[2]) == lo:
+                    guard = a.dominates(b2, bi)
+        okw = bool(zeros) and rem and guard and data[1] == "from" and strip(Ra.operand(t["args"][0])) == ("param", 1)
+    ctx.ob(rule, "formula/PagedWriter::align", okw, "align writes %s through write_all on self when offset %% 4 != 0 (4 - offset %% 4 zero bytes)" % desc)
+    offs = field_assignments(a, "paged_writer::PagedWriter", "offset")
+    ctx.ob(rule, "align-no-direct-offset/PagedWriter::align", not offs, "align never assigns self.offset directly (the padding goes through the page buffer)")
+
+
+def _formulas_reader(ctx, prog, rule):
     # reader: seek_physical: offset - (offset / page_size) * 4, guarded offset < phy_file_size
     g = prog.fn("paged_reader::PagedReader::<T>::seek_physical")
     ctx.fn_seen(g)
@@ -264,34 +302,6 @@ def formulas(ctx, prog, rule):
                     guard = bi not in reach(g.cfg(), [rej]) and g.dominates(b2, bi)
         ok = ok and guard
     ctx.ob(rule, "formula/PagedReader::seek_physical", ok, "offset <- %s (must be pos - (pos / page_size) * 4, assigned only when pos < phy_file_size, with no dependence on the old cursor)" % desc)
-    # align, both sides
-    a = prog.fn(PW + "align")
-    ctx.fn_seen(a)
-    Ra = Resolver(a)
-    okw = False
-    desc = ""
-    for bi, t in a.calls(lambda c, t: c.endswith("Write::write_all")):
-        data = slice_of(Ra.operand(t["args"][1]))
-        if data is None:
-            continue
-        base = strip(data[0])
-        lo = strip_casts(data[2]) if data[2] else None
-        desc = "%s[%s..]" % (tree_str(base), tree_str(lo) if lo else "")
-        zeros = base[0] == "agg" and base[1][0] == "array" and len(base[2]) == 4 and all(const_val(x) == 0 for x in base[2]) or (base[0] == "repeat" and const_val(base[1]) == 0 and base[2].strip().startswith("4"))
-        rem = lo is not None and lo[0] == "binop" and lo[1] == "Rem" and is_self_field(lo[2], "offset") and const_val(lo[3]) == 4
-        # guarded by rem != 0
-        guard = False
-        for b2 in a.cfg():
-            tt = a.blocks[b2]["term"]
-            if tt["k"] == "switch":
-                dl = op_place(tt["discr"])
-                d = strip(Ra.place(dl)) if dl else None
-                if d and d[0] == "binop" and d[1] in ("Ne", "Eq", "Gt") and const_val(d[3]) == 0 and strip_casts(d[2]) == lo:
-                    guard = a.dominates(b2, bi)
-        okw = bool(zeros) and rem and guard and data[1] == "from" and strip(Ra.operand(t["args"][0])) == ("param", 1)
-    ctx.ob(rule, "formula/PagedWriter::align", okw, "align writes %s through write_all on self when offset %% 4 != 0 (4 - offset %% 4 zero bytes)" % desc)
-    offs = field_assignments(a, "paged_writer::PagedWriter", "offset")
-    ctx.ob(rule, "align-no-direct-offset/PagedWriter::align", not offs, "align never assigns self.offset directly (the padding goes through the page buffer)")
     r = prog.fn("paged_reader::PagedReader::<T>::align")
     ctx.fn_seen(r)
     Rr = Resolver(r)
@@ -310,7 +320,7 @@ def formulas(ctx, prog, rule):
     ctx.ob(rule, "formula/PagedReader::align", okr, "offset <- %s (must be offset + (4 - offset %% 4), under offset %% 4 != 0)" % desc)
 
 
-def cursor_writers(ctx, prog, rule):
+def cursor_writers(ctx, prog, rule, side="both"):
     """explicit table of the functions that may assign the page cursors; their arithmetic is
     what the formula rules verify — a new writer is unverified arithmetic."""
     table = {
@@ -318,6 +328,8 @@ def cursor_writers(ctx, prog, rule):
         ("paged_reader::PagedReader", "offset"): {"paged_reader::PagedReader::<T>::new", "paged_reader::PagedReader::<T>::seek_physical", "paged_reader::PagedReader::<T>::align", PR["serve"]},
     }
     for (adt, fld), allowed in table.items():
+        if side != "both" and ("PagedReader" in adt) != (side == "reader"):
+            continue
         writers = set()
         for p, f in prog.fns.items():
             if field_assignments(f, adt, fld):
